@@ -83,8 +83,8 @@ def case_coq(t, detail, strmode="true"):
     scan_code = 0
     if t["scanerr"]:
         scan_code = 2 if t["scanerr"].startswith("panic") else 1
-    return ("(mkC %s (%s : list key) %s %s %s %s (%s : list (nat*nat)) (%s : list (list range)) %s (%s : list ((nat*nat) * list (list range * (bool*bool)) * (Z*Z))) %s %s (%s : list (nat*nat)) (%s : list Z) (%s : list (Z*Z)))" % (
-        coq_list([coq_bool(b) for b in t["isint"]]), keys, coq_list([nat(s) for s in t["in"]["sizes"]]),
+    return ("(mkC %s (%s : list Z) (%s : list key) %s %s %s %s (%s : list (nat*nat)) (%s : list (list range)) %s (%s : list ((nat*nat) * list (list range * (bool*bool)) * (Z*Z))) %s %s (%s : list (nat*nat)) (%s : list Z) (%s : list (Z*Z)))" % (
+        coq_list([coq_bool(b) for b in t["isint"]]), coq_list([z(x) for x in t["pads"]]), keys, coq_list([nat(s) for s in t["in"]["sizes"]]),
         cond_coq(t["in"]["cond"], [0], strmode), nat(t["in"]["coarse"]), nat(t["minmarks"]), probes, rects, coq_bool(detail), cbs,
         coq_bool(bool(t["conderr"])), nat(scan_code),
         coq_list(["(%s, %s)" % (nat(a), nat(b)) for a, b in t["ranges"]]),
@@ -277,17 +277,25 @@ def _coq_atoms(tr):
 def strop_stream(ck, scases, vi):
     """string operators on primary-key columns: direct oracle + signatures + correspondence under the two readings.
     vi = index of the detected (rb, norm) model variant."""
-    verd = {"known_matcheq": 0, "known_like": 0, "violation": 0}
+    verd = {"known_matcheq": 0, "known_like": 0, "known_null_strop": 0, "violation": 0}
     broken = []
     if not scases:
         return verd, broken, None
+    res_true = eval_model(ck, scases, set(i for i, t in enumerate(scases) if t["oracle"]), "st", "true")
 
     def keyops(t):
         return set(a["op"] for a in atoms(t["in"]["cond"]) if a["col"] >= 0 and a["op"] in STROPS)
-    for t in scases:
+    for ti, t in enumerate(scases):
         if not t["oracle"]:
             continue
         ko = keyops(t)
+        e = (res_true or {}).get(ti)
+        if t["in"].get("writersort") and not reader_sorted(t) and any(v is None for row in t["keys"] for v in row[:max(used_keys(t), 1)]) \
+                and e is not None and len(e) == 8 and explained_by_null(t, e, vi % 4):
+            if ck.match_finding(F_NULL):
+                ck.known_finding(F_NULL, "a fragment with a matching row is pruned: null key values are sorted first by the writer but read as +infinity by the index reader")
+                verd["known_null_strop"] += 1
+                continue
         nf = t["nfrag"]
         compound = t["in"]["cond"]["op"] in ("and", "or") or t["in"].get("timecond")
         panicked = "index out of range [-1]" in (t["scanerr"] or "") or -2 in (t["maybe"] or [])
@@ -311,7 +319,6 @@ def strop_stream(ck, scases, vi):
             ck.violation({"kind": "direct-oracle", "what": t["oracle"][:4], "in": t["in"], "case": t["id"], "stream": "strop",
                           "ranges": t["ranges"], "match": t["match"], "scanerr": t["scanerr"]})
     # correspondence: which reading does the tree implement?
-    res_true = eval_model(ck, scases, set(), "st", "true")
     nolike = [t for t in scases if not keyops(t) & {"like", "matchop"}]
     res_eq = eval_model(ck, nolike, set(), "se", "eq")
     if res_true is None or res_eq is None:
@@ -368,6 +375,25 @@ def explained_by_rb(t, e):
     return False
 
 
+def explained_by_null(t, e, vi):
+    """every failing spot of the case (matching fragment outside the returned ranges, false MayBeInRange over a range with
+    a matching row) is pruned / false in the model with a null index cell read as +infinity (entry vi) and kept / true in
+    the model with it read as the writer's pad value (entry 4+vi), and on this case the implementation agrees with the
+    former in every compared observable"""
+    nf = t["nfrag"]
+    probes = [[f, f + 1] for f in range(nf)] + [list(p) for p in t["in"]["probes"]]
+    bad_probes = [j for j, p in enumerate(probes) if j < len(t["maybe"] or []) and t["maybe"][j] == 0 and any(t["match"][p[0]:p[1]])]
+    covered = lambda f: any(a <= f < b for a, b in t["ranges"])
+    bad_frags = [f for f in range(nf) if t["match"][f] and not covered(f)] if not t["scanerr"] else []
+    if (not bad_probes and not bad_frags) or any(m == -2 for m in (t["maybe"] or [])) or (t["scanerr"] or "").startswith("panic"):
+        return False
+    cur, rep = e[vi], e[4 + vi]
+    if cur[0] != 0:
+        return False        # the implementation does not behave like the model that reads a null index cell as +infinity
+    return all(j < len(cur[2]) and j < len(rep[2]) and (not cur[2][j]) and rep[2][j] for j in bad_probes) and \
+        all(f < len(cur[1]) and f < len(rep[1]) and (not cur[1][f]) and rep[1][f] for f in bad_frags)
+
+
 def run_harness(ck, binp, args, timeout=1200, env=None):
     rc, out = ck.run([binp] + args, timeout=timeout, env=env)
     cases = []
@@ -410,38 +436,59 @@ def classify(ck, cases, tag):
     res = eval_model(ck, cases, oracle_ids, tag)
     if res is None:
         return None
-    # ---- variant detection
-    def mask(i, v):
-        e = res.get(i)
-        if e is None:
-            return 0
-        if len(e) == 1:      # condition-error case: single entry
-            return e[0][0]
-        return e[v][0]
-
+    # ---- variant detection: reading of a null index cell (entries 0..3 = +infinity, 4..7 = the writer's pad value), then
+    # checkRangeRightBound and the index-bound rewriting within that reading
     n = len(cases)
     sig2 = [sig_mut_input(t) for t in cases]
     plain = [i for i in range(n) if not sig2[i]]
-    rb_cur_mis = [i for i in plain if mask(i, 1) != 0]
-    rb_rep_mis = [i for i in plain if mask(i, 3) != 0]
-    var_rb = "repaired" if not rb_rep_mis else ("current" if not rb_cur_mis else None)
-    base = 2 if var_rb == "repaired" else 0
     s2 = [i for i in range(n) if sig2[i]]
-    norm_rep_mis = [i for i in s2 if mask(i, base + 1) != 0]
 
-    def cur_mask(i):
-        m = mask(i, base) & ~1          # the rewriting persists across the calls of one Scan: not modelled
-        t = cases[i]
-        if has_null_mid_int(t) or -2 in (t["maybe"] or []) or any(p["final"][0] == -2 for p in (t.get("cbprobes") or [])):
-            m &= ~(2 | 16)              # packed-value addressing / panics: not modelled
-        return m
-    norm_cur_mis = [i for i in s2 if cur_mask(i) != 0]
-    if not norm_rep_mis:
-        var_norm = "repaired"
-    elif not norm_cur_mis and any(mut_evidence(cases[i]) for i in s2):
-        var_norm = "current"
+    def detect(off):
+        def mask(i, v):
+            e = res.get(i)
+            if e is None:
+                return 0
+            if len(e) == 1:      # condition-error case: single entry
+                return e[0][0]
+            return e[off + v][0]
+        rb_cur_mis = [i for i in plain if mask(i, 1) != 0]
+        rb_rep_mis = [i for i in plain if mask(i, 3) != 0]
+        var_rb = "repaired" if not rb_rep_mis else ("current" if not rb_cur_mis else None)
+        base = 2 if var_rb == "repaired" else 0
+        norm_rep_mis = [i for i in s2 if mask(i, base + 1) != 0]
+
+        def cur_mask(i):
+            m = mask(i, base) & ~1          # the rewriting persists across the calls of one Scan: not modelled
+            t = cases[i]
+            if has_null_mid_int(t) or -2 in (t["maybe"] or []) or any(p["final"][0] == -2 for p in (t.get("cbprobes") or [])):
+                m &= ~(2 | 16)              # packed-value addressing / panics: not modelled
+            return m
+        norm_cur_mis = [i for i in s2 if cur_mask(i) != 0]
+        if not norm_rep_mis:
+            var_norm = "repaired"
+        elif not norm_cur_mis and any(mut_evidence(cases[i]) for i in s2):
+            var_norm = "current"
+        else:
+            var_norm = None
+        return {"rb": var_rb, "norm": var_norm, "mask": mask, "rb_cur_mis": rb_cur_mis, "rb_rep_mis": rb_rep_mis,
+                "norm_rep_mis": norm_rep_mis, "norm_cur_mis": norm_cur_mis,
+                "total": len(rb_rep_mis if var_rb != "current" else rb_cur_mis) + len(norm_rep_mis if var_norm != "current" else norm_cur_mis)}
+    d_inf, d_pad = detect(0), detect(4)
+    ok_inf = d_inf["rb"] is not None and d_inf["norm"] is not None
+    ok_pad = d_pad["rb"] is not None and d_pad["norm"] is not None
+    null_dist = sum(1 for i in range(n) if res.get(i) is not None and len(res[i]) == 8 and
+                    [x[0] for x in res[i][:4]] != [x[0] for x in res[i][4:]])
+    if ok_inf and ok_pad:
+        var_null, d, off = "undetermined", d_inf, 0    # no case of this run has a null in an index cell the condition uses
+    elif ok_pad:
+        var_null, d, off = "repaired", d_pad, 4
+    elif ok_inf:
+        var_null, d, off = "current", d_inf, 0
     else:
-        var_norm = None
+        var_null = None
+        d, off = (d_pad, 4) if d_pad["total"] < d_inf["total"] else (d_inf, 0)
+    mask, var_rb, var_norm = d["mask"], d["rb"], d["norm"]
+    rb_cur_mis, rb_rep_mis, norm_rep_mis, norm_cur_mis = d["rb_cur_mis"], d["rb_rep_mis"], d["norm_rep_mis"], d["norm_cur_mis"]
     broken = []
     if var_rb is None:
         i = min(rb_rep_mis, key=lambda k: k)
@@ -470,8 +517,11 @@ def classify(ck, cases, tag):
         rec = {"kind": "direct-oracle", "what": t["oracle"], "in": t["in"], "case": i, "stream": tag,
                "ranges": t["ranges"], "match": t["match"], "scanerr": t["scanerr"]}
         done = False
-        if t["in"].get("writersort") and not reader_sorted(t) and any(v is None for row in t["keys"] for v in row[:max(used_keys(t), 1)]):
-            # rows ordered by the writer's sort (nulls first) are not in the order the reader assumes (nulls = +infinity)
+        if t["in"].get("writersort") and not reader_sorted(t) and any(v is None for row in t["keys"] for v in row[:max(used_keys(t), 1)]) \
+                and e is not None and len(e) == 8 and explained_by_null(t, e, (2 if var_rb == "repaired" else 0) + (1 if var_norm == "repaired" else 0)):
+            # rows ordered by the writer's sort (a null sorts as the smallest value of the type) are not in the order the
+            # reader assumes (null = +infinity); every failing spot is pruned / false in the model that reads a null index
+            # cell as +infinity and kept / true in the model that reads it as the writer's pad value
             if ck.match_finding(F_NULL):
                 ck.known_finding(F_NULL, "a fragment with a matching row is pruned: null key values are sorted first by the writer but read as +infinity by the index reader")
                 verdicts["known_null"] += 1
@@ -483,7 +533,7 @@ def classify(ck, cases, tag):
                 done = True
         if done:
             continue
-        if e is not None and len(e) == 4 and used_keys(t) >= 2 and explained_by_rb(t, e):
+        if e is not None and len(e) == 8 and used_keys(t) >= 2 and explained_by_rb(t, e[off:off + 4]):
             # every pruned matching fragment / false may_be is also pruned / false in the model of today's
             # checkRangeRightBound (returns mark) and kept / true in the repaired model (returns res)
             if ck.match_finding(F_RB):
@@ -493,7 +543,7 @@ def classify(ck, cases, tag):
         verdicts["violation"] += 1
         if verdicts["violation"] <= 3:
             ck.violation(rec)
-    return {"rb": var_rb, "norm": var_norm, "broken": broken, "verdicts": verdicts,
+    return {"rb": var_rb, "norm": var_norm, "null": var_null, "off": off, "null_distinguishing": null_dist, "broken": broken, "verdicts": verdicts,
             "mismatch_counts": {"rb_current": len(rb_cur_mis), "rb_repaired": len(rb_rep_mis),
                                 "norm_repaired": len(norm_rep_mis), "norm_current": len(norm_cur_mis)}}
 
@@ -508,8 +558,9 @@ def main(ck):
     ck.assumptions += [
         "typed key values are compared by the harness through order-preserving encodings into Z (integers as themselves, "
         "floats/strings/booleans by dense rank within the case; no NaN, no -0.0); literals have the column's type",
-        "rows handed to PKIndexWriterImpl.Build are sorted lexicographically with nulls greatest, i.e. in the order in "
-        "which PKIndexReaderImpl interprets the index (see NOTES.md: the writer-side sort order of nulls is not covered)",
+        "rows handed to PKIndexWriterImpl.Build are in the order of the REAL record.SortHelper.SortForColumnStore (the column store's flush "
+        "sort: a null key sorts as - and ties with - the smallest value the writer knows for the type); other orders (e.g. the one a "
+        "block-wise compaction merge produces with its *WithLimit padding) are not covered",
         "row semantics of the condition: a null satisfies no comparison (lib/binaryfilterfunc drops nulls for every operator)",
         "bloom filter: the hash function is abstract (Section variable); MATCHPHRASE row semantics = the engine's SimpleTokenFinder; premise "
         "match_tokens (a matching value yields every token the reader derives from the phrase, at least one) - violated by today's pure-Go "
@@ -594,7 +645,7 @@ def main(ck):
     r = classify(ck, cases, "c")
     if r is None:
         return
-    vi = (2 if r["rb"] == "repaired" else 0) + (1 if r["norm"] == "repaired" else 0)
+    vi = r["off"] + (2 if r["rb"] == "repaired" else 0) + (1 if r["norm"] == "repaired" else 0)
     sverd, sbroken, sreading = strop_stream(ck, scases, vi)
     r["broken"] += sbroken
     r["verdicts"].update(sverd)
@@ -602,8 +653,8 @@ def main(ck):
     for fid, key in ((F_MATCHEQ, "known_matcheq"), (F_LIKE, "known_like")):
         if ck.match_finding(fid) and scases and sverd[key] == 0:
             ck.notes.append("open finding %s did not reproduce in this run (stale?)" % fid)
-    ck.notes.append("variant detected: checkRangeRightBound=%s, index-bound rewriting=%s; mismatch counts %s; oracle verdicts %s" % (
-        r["rb"], r["norm"], r["mismatch_counts"], r["verdicts"]))
+    ck.notes.append("variant detected: checkRangeRightBound=%s, index-bound rewriting=%s, null index cell=%s (%d distinguishing cases); mismatch counts %s; oracle verdicts %s" % (
+        r["rb"], r["norm"], r["null"], r["null_distinguishing"], r["mismatch_counts"], r["verdicts"]))
     ck.log(ck.notes[-1])
     # stale findings (open entries that no longer reproduce) are reported, not failed
     if ck.match_finding(F_GRAM) and bcases and bverd["known_gram"] == 0:
@@ -682,7 +733,7 @@ def main(ck):
                       "reader settings; non-trivial = the condition uses a key column, at least one fragment contains a matching "
                       "row and at least one fragment is pruned; distinct = different (types, rows, sizes, condition)")
     ck.cov["input_histogram"] = hist
-    ck.cov["variant_detected"] = {"checkRangeRightBound": r["rb"], "index_bound_rewriting": r["norm"]}
+    ck.cov["variant_detected"] = {"checkRangeRightBound": r["rb"], "index_bound_rewriting": r["norm"], "null_index_cell": r["null"]}
     ck.cov["oracle_verdicts"] = r["verdicts"]
     ck.cov["model_mismatch_counts"] = r["mismatch_counts"]
     ok_cases = len(cases) - len(r["broken"])
